@@ -10,7 +10,7 @@ RULE = ("abstract histories (signals x time steps x values) are serialised to VC
         "dense / gapped / hashed identifier codes) and loaded through st/rd/hc/hf entry points; the oracle is the "
         "meaning computed from the abstract history, never from the text. Exhaustive sweeps: every byte as scalar and "
         "as vector character (model-vs-implementation outcome class), every leading character x (declared width, "
-        "written length) up to 20. Non-trivial: the file has >= 2 changes of one signal and uses at least one of "
+        "written length) up to 20; signals quiet for 4095..40000 (thorough: ..70000) steps; files that end directly after their last token. Non-trivial: the file has >= 2 changes of one signal and uses at least one of "
         "{shortened vector, upper case, 0b, implicit first step, non-increasing timestamp, hashed ids, width > 8}.")
 ASSUMPTIONS = ["f64 parsing: Rust str::parse::<f64> and OCaml float_of_string agree on the decimal syntax the generator emits (A-f64-parse)",
                "lz4_flex round trip (A-lz4)", "header parsing is covered by C09; the signal table is passed to the model"]
@@ -91,9 +91,16 @@ def run(res, rng, tier, model_ok, replay=None):
             sigs, steps, imp = gen.gen_history(rng, max_steps=(40 if big else 12),
                                                widths=([512, 1023, 1024, 4096] if big else None))
             mode = rng.choice(["st", "st", "rd", "hc", "hf:0", "rb"])
-            line, exp, meta = gen.vcd_case(rng, mode, sigs, steps, imp)
+            line, exp, meta = gen.vcd_case(rng, mode, sigs, steps, imp, strip_end=(rng.random() < 0.25))
             cases.append({"line": line, "expect": exp, "key": nontrivial_key(line, sigs, steps, imp, meta),
                           "klass": "random-" + mode.split(":")[0] + "-" + meta["kind"]})
+        # signals that stay quiet for many time steps inside one storage block, then change
+        for gap in ([4095, 4096, 4097, 16383, 16384, 16385, 40000] if tier == "quick" else
+                    [255, 256, 4095, 4096, 4097, 8192, 16383, 16384, 16385, 32768, 40000, 65534, 65535, 65536, 70000]):
+            sigs, steps = gen.gap_history(rng, gap)
+            for mode in ("st", "rd"):
+                line, exp, meta = gen.vcd_case(rng, mode, sigs, steps, False, ws="plain", regime="dense")
+                cases.append({"line": line, "expect": exp, "key": ("gap", gap, mode), "klass": "quiet-gap"})
     vcdfam.run_both(res, cases, "c01", model_ok)
     res.samples = [c["line"][:400] for c in cases[-2:]] + [cases[0]["line"][:300]]
 
